@@ -41,7 +41,9 @@ import (
 	"go.uber.org/zap"
 
 	"github.com/mholt/caddy-l4/layer4"
+	_ "github.com/mholt/caddy-l4/modules/l4echo"
 	"github.com/mholt/caddy-l4/modules/l4proxyprotocol"
+	"github.com/mholt/caddy-l4/modules/l4subroute"
 	"github.com/mholt/caddy-l4/modules/l4tee"
 	"github.com/mholt/caddy-l4/modules/l4throttle"
 )
@@ -657,6 +659,20 @@ func vRunRelay(ctx caddy.Context, sc vRelaySc) (res vRelayRes) {
 			if err = vC03Prov(func() error { return pp.Provision(ctx) }); err == nil {
 				err = pp.Handle(cx, final)
 			}
+		case "subroute":
+			// the proxy is reached by falling through a real compiled route list: a route without matcher whose
+			// handler (throttle) is not terminal, then a route whose matcher (tls) needs data and says no
+			sub := new(l4subroute.Handler)
+			err = json.Unmarshal([]byte(`{"matching_timeout": "300ms", "routes": [
+				{"handle": [{"handler": "throttle", "read_bytes_per_second": 1e12, "read_burst_size": 1073741824}]},
+				{"match": [{"tls": {}}], "handle": [{"handler": "echo"}]}]}`), sub)
+			if err == nil {
+				err = vC03Prov(func() error { return sub.Provision(ctx) })
+			}
+			if err == nil {
+				chain := layer4.Handlers{sub, layer4.NextHandlerFunc(func(cx *layer4.Connection, _ layer4.Handler) error { return final.Handle(cx) })}.Compile()
+				err = chain.Handle(cx)
+			}
 		case "tee":
 			raw, _ := json.Marshal(map[string]string{"handler": "verif_c03_discard"})
 			te := &l4tee.Handler{HandlersRaw: []json.RawMessage{raw}}
@@ -774,6 +790,8 @@ func vChainCoq(w string) string {
 		return "chain_proxy_protocol"
 	case "tee":
 		return "chain_tee"
+	case "subroute":
+		return "chain_throttle" // the subroute's first route put a throttledConn around the transport
 	}
 	return "chain_direct"
 }
@@ -1060,7 +1078,7 @@ func TestVerifC03(t *testing.T) {
 		if pre > clen {
 			sc.pre = clen
 		}
-		if wrapper == "proxy_protocol" || wrapper == "tee" {
+		if wrapper == "proxy_protocol" || wrapper == "tee" || wrapper == "subroute" {
 			sc.pre = 0 // prefetched residue behind these wrappers is C01's subject
 		}
 		for i := 0; i < peers; i++ {
@@ -1083,6 +1101,14 @@ func TestVerifC03(t *testing.T) {
 			sc.ppOut, sc.idle = pp, idle
 			scs = append(scs, sc)
 		}
+	}
+	// 0b. the proxy reached by falling through a subroute (matching_timeout 300 ms); the client pauses
+	// three times as long between two segments: no deadline of the matching phase may survive
+	for i := 0; i < 3; i++ {
+		sc := mk(1+i%2, 800+rng.Intn(800), 0, []int{200 + rng.Intn(500)}, i == 2, i != 2, "subroute", 0, 0, "")
+		sc.cPayload[0] = 'h' // not a TLS record: the tls matcher says no once it has seen data
+		sc.idle = 900 * time.Millisecond
+		scs = append(scs, sc)
 	}
 	// 1. every wrapper x every half-close order x 1..3 peers, small payloads both ways
 	for _, w := range wrappers {
